@@ -265,6 +265,7 @@ DEFAULT_PROFILE: Dict[str, Any] = {
     "search_type": None,  # None = nearest_shortest_queue (9 of 10) or shortest_time_to_charge
     "idle_time_out": None,
     "colocate": 0.25,
+    "euclidean_default_speed": 0.0,  # probability that a straight-line scenario sets network.default_speed_kmph
     "shared_ids": 0.0,  # probability that a base's station carries the base's id
     "depot": 0.0,  # probability (in fleets scenarios) of a depot shared by up to three human drivers
     "detached_base_station": 0.0,  # probability that a base's station is entered at other coordinates than the base
@@ -358,6 +359,8 @@ def random_spec(seed: int, profile: Optional[Dict[str, Any]] = None) -> Dict[str
         net = {"type": "denver"}
     else:
         net = {"type": "euclidean"}
+        if P.get("euclidean_default_speed") and rnd.random() < P["euclidean_default_speed"]:
+            net["default_speed_kmph"] = rnd.choice([25.0, 30.0, 60.0])  # documented key; the straight-line network drives at 40 km/h whatever it says
     geo = _Geo(rnd, net, P["spread"])
     # --- sim
     dt = P["dt"] or rnd.choice(P["dts"])
